@@ -3,7 +3,8 @@ import TypstyleModel.Model.Printer.Knot
 namespace Typstyle
 
 /-- The model is a function: equal tree, configuration and width function give equal results. -/
-theorem C17_model_is_a_function (e₁ e₂ : Env) (t₁ t₂ : Node) (he : e₁ = e₂) (ht : t₁ = t₂) :
-    format e₁ t₁ = format e₂ t₂ := by subst he; subst ht; rfl
+theorem C17_model_is_a_function (c₁ c₂ : Config) (wd₁ wd₂ : String → Nat) (t₁ t₂ : Node)
+    (hc : c₁ = c₂) (hw : wd₁ = wd₂) (ht : t₁ = t₂) : format c₁ wd₁ t₁ = format c₂ wd₂ t₂ := by
+  subst hc; subst hw; subst ht; rfl
 
 end Typstyle
